@@ -47,6 +47,32 @@ theorem C13_direction_roundtrip (l2r : List (α × α)) (hk : (l2r.map (·.1)).N
   refine ⟨?_, rfl, rfl⟩
   simpa [serverMaps] using roundtrip l2r hk hv s hs
 
+/-- "exactly once" matters: with a mapping whose targets are sources too (a chain `a ↦ b ↦ c`, which the start-up validation
+    accepts), translating a name twice is NOT translating it once — a second pass over an already translated message (a
+    retry that re-enters the translation, a field reached by two walks) sends `a` to `c`. (Seeds C12f, C13f, C14g.) -/
+theorem C13_applied_twice_is_not_once (m : List (α × α)) (a b c : α) (hab : (a, b) ∈ m) (hbc : (b, c) ∈ m)
+    (hk : (m.map (·.1)).Nodup) (hne : c ≠ b) :
+    translateName m (translateName m a) = c ∧ translateName m (translateName m a) ≠ translateName m a := by
+  have h1 : translateName m a = b := translateName_mapped m a b hab hk
+  have h2 : translateName m b = c := translateName_mapped m b c hbc hk
+  rw [h1, h2]
+  exact ⟨rfl, hne⟩
+
+/-- … and it is harmless exactly when no target is a source: then a second pass finds nothing to map -/
+theorem C13_applied_twice_is_once_when_disjoint (m : List (α × α)) (hk : (m.map (·.1)).Nodup)
+    (hdis : ∀ p ∈ m, ∀ q ∈ m, q.1 ≠ p.2) (s : α) :
+    translateName m (translateName m s) = translateName m s := by
+  by_cases hs : ∃ p ∈ m, p.1 = s
+  · obtain ⟨p, hp, rfl⟩ := hs
+    have h1 : translateName m p.1 = p.2 := translateName_mapped m p.1 p.2 (by simpa using hp) hk
+    rw [h1]
+    exact translateName_unmapped m p.2 (fun q hq => hdis p hp q hq)
+  · have h1 : translateName m s = s := translateName_unmapped m s (fun p hp h => hs ⟨p, hp, h⟩)
+    rw [h1, h1]
+
+example : configAccepts "" [("a", "b"), ("b", "c")] = true ∧
+    translateName [("a", "b"), ("b", "c")] (translateName [("a", "b"), ("b", "c")] "a") = "c" := by decide
+
 end S2S.NameMap
 
 namespace S2S.Translate
